@@ -233,7 +233,7 @@ func TestVerifC12(t *testing.T) {
 		"subscription of a member = the one sent with its latest JoinGroup", "topics absent from the store have no partitions in the oracle's universe (the phantom partition 0 is neither required nor forbidden)", "assignment bytes decoded with franz-go kmsg.ConsumerMemberAssignment")
 	p := gDefaultProfile
 	p.WGrow = 3
-	n := r.N(800, 25000)
+	n := r.N(600, 25000)
 	seen := func(w *gWorld, ev *gEvent) { r.Seen("group_states", w.stateSig(ev.After)) }
 	account := func(ci int, w *gWorld, o *c12Obs) {
 		if w.blocked {
